@@ -108,6 +108,12 @@ func peach(fm *Frame, opts peachOpt, f Callable, inputs Inputs) error {
 				// has not been acquired, so don't start the callback.
 				return
 			}
+			if atomic.LoadInt32(&broken) != 0 {
+				// A callback broke or failed while we were waiting for it to
+				// free its worker.
+				workerSema.Release(1)
+				return
+			}
 		}
 		wg.Add(1)
 		go func() {
